@@ -121,6 +121,21 @@ Proof.
   - unfold free_lock. rewrite Hr. exact G.
 Qed.
 
+Lemma release_tail2 s xt xe k r l d lc uc :
+  GInv s (gkd xt xe k (Z.of_N d) (- Z.of_N d) 0) -> aget (store s) r = Some l -> l_key l = k -> l_locked l = d -> 0 < d ->
+  GInv (fst (let '(s0, aev) := if l_isaof (getl s r) then push_unlock_aof s k r lc uc false 0 else (s, []) in (remove_lock s0 k r, aev)))
+       (gkd xt xe k 0 (- Z.of_N d) 0)
+  /\ GInv (fst (let '(s0, aev) := if l_isaof (getl s r) then push_unlock_aof s k r lc uc false 0 else (s, []) in
+                let s0 := remove_lock s0 k r in
+                let s0 := if l_refc (getl s0 r) =? 0 then remove_mgr_if_unref (free_lock s0 r) k else s0 in (s0, aev)))
+       (gkd xt xe k 0 (- Z.of_N d) 0).
+Proof.
+  intros G Hr Hkey Hd Hpos.
+  pose proof (release_tail_ginv s xt xe k r l d G Hr Hkey Hd Hpos lc uc) as GT.
+  destruct (l_isaof (getl s r)); [destruct (push_unlock_aof s k r lc uc false 0) as [s2 aev]|]; cbn [fst] in *;
+    (split; [exact GT|apply free_if_unref_ginv; auto]).
+Qed.
+
 Lemma release_hold_ginv s xt xe k conn c r l d m :
   GInv s (gkd xt xe k (Z.of_N d) (- Z.of_N d) 0) -> aget (store s) r = Some l -> l_key l = k -> l_locked l = d -> 0 < d ->
   l_timeouted l = true -> aget (mgrs s) k = Some m -> occ r (holders m) = 1%nat -> c_data c = None ->
@@ -137,27 +152,38 @@ Proof.
   assert (Hfin : forall s3, GInv s3 (gkd xt xe k 0 (- Z.of_N d) 0) ->
             GInv (bump (fun n => n <| n_unlock := (n_unlock n + Z.of_N d)%Z |> <| n_locked := (n_locked n - Z.of_N d)%Z |>) s3) (gk xt xe k)).
   { intros s3 G3. eapply ginv_geq; [eapply updc_ginv with (cl' := 0%Z) (cw' := 0%Z); [exact G3|..]; unfold gkd; gs; cbn; lia|reflexivity]. }
+  assert (Hmain : GInv (fst (let '(s0, aev) :=
+             if l_long l1 then
+               let s0 := remove_long_expried s1 r (l_eT l1) in
+               let '(s0, aev) := if l_isaof (getl s0 r) then push_unlock_aof s0 k r (l_cmd l) (Some c) false 0 else (s0, []) in
+               let s0 := remove_lock s0 k r in
+               let s0 := if l_refc (getl s0 r) =? 0 then remove_mgr_if_unref (free_lock s0 r) k else s0 in (s0, aev)
+             else
+               let '(s0, aev) := if l_isaof (getl s1 r) then push_unlock_aof s1 k r (l_cmd l) (Some c) false 0 else (s1, []) in
+               (remove_lock s0 k r, aev) in
+            (bump (fun n => n <| n_unlock := (n_unlock n + Z.of_N d)%Z |> <| n_locked := (n_locked n - Z.of_N d)%Z |>) s0, aev))) (gk xt xe k)).
+  { change (l_long l1) with (l_long l). change (l_eT l1) with (l_eT l). destruct (l_long l) eqn:Elong.
+    - assert (Hbk : occ r (wheel_get (elong s1) (lkey (l_eT l))) = 1%nat) by (change (elong s1) with (elong s); apply A8; auto).
+      pose proof (ginv_pend_add s1 g r G1) as Ga.
+      assert (Gb : GInv (remove_long_expried s1 r (l_eT l)) (g <| g_pend := [r] |>)).
+      { apply (remove_long_expried_ginv s1 _ r l1 (l_eT l) Ga Hr1); unfold g, gkd; gs; auto;
+          try (rewrite occ_cons_eq; lia);
+          try (intros _; change (l_key l1) with (l_key l); rewrite Hkey; change (getm s1 k) with (getm s k); rewrite (getm_some _ _ _ Hm); exact Hh). }
+      destruct (remove_long_expried_frame s1 r (l_eT l) l1 Hr1) as [Fr _].
+      destruct (wheel_get_some (elong s1) (lkey (l_eT l)) r) as [q [Hq1 Hq2]]; [lia|]. rewrite Hq1 in Fr.
+      set (s2 := remove_long_expried s1 r (l_eT l)) in *.
+      set (l2 := l1 <| l_long := false |> <| l_refc := dec8 (l_refc l1) |>) in *.
+      assert (Gc : GInv s2 g).
+      { eapply ginv_geq; [apply (ginv_pend_drop _ _ r [] Gb); gs; auto|reflexivity].
+        intros l0 H0 Hl0. rewrite Fr in H0. inversion H0; subst l0. discriminate. }
+      destruct (release_tail2 s2 xt xe k r l2 d (l_cmd l) (Some c) Gc Fr Hkey Hd Hpos) as [_ GT].
+      cbv zeta in GT. cbv zeta.
+      destruct (if l_isaof (getl s2 r) then push_unlock_aof s2 k r (l_cmd l) (Some c) false 0 else (s2, [])) as [s3 aev].
+      cbn [fst] in *. apply Hfin. exact GT.
+    - destruct (release_tail2 s1 xt xe k r l1 d (l_cmd l) (Some c) G1 Hr1 Hkey Hd Hpos) as [GT _].
+      destruct (if l_isaof (getl s1 r) then push_unlock_aof s1 k r (l_cmd l) (Some c) false 0 else (s1, [])) as [s3 aev].
+      cbn [fst] in *. apply Hfin. exact GT. }
+  cbv zeta in Hmain. rewrite (getl_some _ _ _ Hr1) in Hmain.
   destruct (has_udata_flag c); rewrite ?(process_data_core _ _ _ _ _ Hc); cbv iota beta; rewrite (getl_some _ _ _ Hr1);
-    change (l_long l1) with (l_long l); change (l_eT l1) with (l_eT l).
-  all: destruct (l_long l) eqn:Elong.
-  all: try (
-    (* not in the long table *)
-    pose proof (release_tail_ginv s1 xt xe k r l1 d G1 Hr1 Hkey Hd Hpos (l_cmd l) (Some c)) as GT;
-    destruct (l_isaof (getl s1 r)); [destruct (push_unlock_aof s1 k r (l_cmd l) (Some c) false 0) as [s2 aev]|];
-    cbn [fst] in *; apply Hfin; exact GT).
-  all: (* long table entry *)
-    assert (Hbk : occ r (wheel_get (elong s1) (lkey (l_eT l))) = 1%nat) by (change (elong s1) with (elong s); apply A8; auto);
-    pose proof (ginv_pend_add s1 g r G1) as Ga;
-    assert (Gb : GInv (remove_long_expried s1 r (l_eT l)) (g <| g_pend := [r] |>)) by
-      (apply (remove_long_expried_ginv s1 _ r l1 (l_eT l) Ga Hr1); unfold g, gkd; gs; auto;
-       [rewrite occ_cons_eq; lia|intros _; change (l_key l1) with (l_key l); rewrite Hkey; change (getm s1 k) with (getm s k); rewrite (getm_some _ _ _ Hm); exact Hh]);
-    destruct (remove_long_expried_frame s1 r (l_eT l) l1 Hr1) as [Fr _];
-    destruct (wheel_get_some (elong s1) (lkey (l_eT l)) r) as [q [Hq1 Hq2]]; [lia|]; rewrite Hq1 in Fr;
-    set (s2 := remove_long_expried s1 r (l_eT l)) in *;
-    set (l2 := l1 <| l_long := false |> <| l_refc := dec8 (l_refc l1) |>) in *;
-    assert (Gc : GInv s2 g) by
-      (eapply ginv_geq; [apply (ginv_pend_drop _ _ r [] Gb); gs; auto; intros l0 H0 Hl0; rewrite Fr in H0; inversion H0; subst l0; discriminate|reflexivity]);
-    pose proof (release_tail_ginv s2 xt xe k r l2 d Gc Fr Hkey Hd Hpos (l_cmd l) (Some c)) as GT;
-    destruct (l_isaof (getl s2 r)); [destruct (push_unlock_aof s2 k r (l_cmd l) (Some c) false 0) as [s3 aev]|];
-    cbn [fst] in *; apply Hfin; apply free_if_unref_ginv; auto.
+    destruct (if l_long l1 then _ else _) as [s4 aev4]; exact Hmain.
 Qed.
